@@ -349,7 +349,7 @@ func Spec() *core.Spec {
 		Level: "exploration",
 		Race:  true,
 		Rule: "seeded programs of 1-8 batch items over {set (value = request id + item index), read, fail, noop}; 2-64 goroutines issuing requests through BatchExecutor.HandleRequest at once (handlers yield so that items of different requests interleave; in half of the rounds a retry middleware runs the chain twice for a quarter of the requests) and 1-16 real server connections each sending a sequence of 6 requests; " +
-			"every read is checked against a per-request sequential register model starting empty; any value carrying another request's id is a leak, identified exactly; race reports whose stacks are the placeholder accessors are violations. distinct = distinct programs",
+			"every read is checked against a per-request sequential register model starting empty; any value carrying another request's id is a leak, identified exactly; race reports whose stacks are the placeholder accessors are violations. a fifth action storing the empty value; a batch-splitting message middleware (chunks through separate continuation calls); distinct = distinct programs",
 		Assumptions: []string{"after a failed item both the previous value and the empty value are accepted (the statement is silent on clearing)"},
 		Required:    []string{"requests.direct", "requests.wire", "reads", "handler_overlaps", "connections", "retried_requests", "split_requests", "empty_value_stored_over_a_value"},
 		RaceVerdict: func(r core.RaceReport) (string, bool) {
